@@ -9,6 +9,7 @@ package c20
 import (
 	"fmt"
 	"reflect"
+	"regexp"
 	"sort"
 	"strings"
 	"time"
@@ -19,6 +20,8 @@ import (
 
 	"verif/harness/mc"
 )
+
+var unresolvedRe = regexp.MustCompile(`(^| )\\?[0-9]+:`)
 
 // maxReported caps the violations listed per part (each writes a replay file); the total is in the
 // detail of the last one.
@@ -301,7 +304,7 @@ func inventoryPart() mc.Part {
 						}
 					}
 				}
-				for n := range msgs {
+				for _, n := range sortedKeys(msgs) {
 					if !srcMsgs[n] {
 						c.add(fmt.Sprintf("C20/inventory/%s/not-in-proto/message/%s", fam, n), "registered but not declared in "+f.Path, f.Path)
 					}
@@ -341,7 +344,7 @@ func inventoryPart() mc.Part {
 						c.add(fmt.Sprintf("C20/inventory/pulsar/no-go-type/%s", se.FullName), err.Error(), f.Path)
 					}
 				}
-				for n := range enums {
+				for _, n := range sortedKeys(enums) {
 					if !srcEnums[n] {
 						c.add(fmt.Sprintf("C20/inventory/%s/not-in-proto/enum/%s", fam, n), "registered but not declared in "+f.Path, f.Path)
 					}
@@ -455,6 +458,15 @@ func inventoryPart() mc.Part {
 	}}
 }
 
+func sortedKeys[V any](m map[string]V) []string {
+	out := make([]string, 0, len(m))
+	for k := range m {
+		out = append(out, k)
+	}
+	sort.Strings(out)
+	return out
+}
+
 func describeType(fd protoreflect.FieldDescriptor) string {
 	switch {
 	case fd.IsMap():
@@ -482,8 +494,9 @@ func descriptorsPart() mc.Part {
 		c := newCollector()
 		var evals int64
 		compared := 0
+		withOptions, unresolved := 0, 0
 		elements := map[string]int{}
-		var sample []string
+		var sample, fileSample []string
 		for _, f := range w.src {
 			g, p := w.gogo[f.Path], w.pulsar[f.Path]
 			if g == nil || p == nil {
@@ -493,15 +506,20 @@ func descriptorsPart() mc.Part {
 			fg, fp := flatten(g.fdp), flatten(p.fdp)
 			n, diffs := diffFlat(fg, fp)
 			evals += int64(n)
-			for k := range fg {
-				if k.Aspect == "options" || k.Aspect == "number" && k.Kind == "enumvalue" {
+			for k, v := range fg {
+				if k.Aspect == "options" {
 					elements[k.Kind]++
+					if v != "" {
+						withOptions++
+					}
+					if strings.Contains(v, "?") && unresolvedRe.MatchString(v) {
+						unresolved++
+					}
 				}
 			}
-			if len(sample) < 2 {
-				for _, k := range []flatKey{{"file", f.Path, "options"}} {
-					sample = append(sample, fmt.Sprintf("%s: both %q (gogo raw go_package=%q, api go_package=%q)", k, fg[k], g.fdp.GetOptions().GetGoPackage(), p.fdp.GetOptions().GetGoPackage()))
-				}
+			if len(fileSample) < 1 {
+				k := flatKey{"file", f.Path, "options"}
+				fileSample = append(fileSample, fmt.Sprintf("%s: both %q after setting code-generator options aside (gogo go_package=%q, api go_package=%q)", k, fg[k], g.fdp.GetOptions().GetGoPackage(), p.fdp.GetOptions().GetGoPackage()))
 			}
 			// an element present in one family only gives one finding, not one per aspect
 			type el struct{ kind, name string }
@@ -540,12 +558,14 @@ func descriptorsPart() mc.Part {
 			k = flatKey{"message", "irismod.coinswap.MsgAddLiquidity", "options"}
 			sample = append(sample, fmt.Sprintf("%s = %s", k, fg[k]))
 		}
+		sample = append(sample, fileSample...)
 		rep.Evaluations = evals
 		rep.Nontrivial = int64(elements["message"])
 		rep.Exhaustive = true
 		rep.Bounds = map[string]interface{}{"files_compared": compared, "api_only_files_not_comparable": w.pulsarOnly,
 			"messages_incl_map_entries": elements["message"], "fields": elements["field"], "enums": elements["enum"], "enum_values": elements["enumvalue"],
-			"services": elements["service"], "methods": elements["method"], "aspects_compared": evals}
+			"services": elements["service"], "methods": elements["method"], "aspects_compared": evals,
+			"elements_carrying_options": withOptions, "options_with_extensions_declared_in_no_linked_file_compared_as_raw_bytes": unresolved}
 		for _, s := range sample {
 			rep.Samples = append(rep.Samples, s)
 		}
@@ -588,6 +608,10 @@ func roundtripPart() mc.Part {
 				rep.Internal = "building Any payloads from " + fam + " descriptors: " + err.Error()
 				return rep
 			}
+		}
+		depth := 2
+		if tier == "thorough" {
+			depth = 3
 		}
 		var evals, nontrivial int64
 		var nMsgs, nSkipped, nValues int
@@ -637,7 +661,7 @@ func roundtripPart() mc.Part {
 				order = append(order, rm)
 				byName[name] = rm
 				populated := false
-				pv := gens[famPulsar].values(pmd, 2)
+				pv := gens[famPulsar].values(pmd, depth)
 				for _, nv := range pv {
 					evals++
 					nValues++
@@ -654,7 +678,7 @@ func roundtripPart() mc.Part {
 				if fail := gogoZeroToPulsar(mt, gt); fail != nil {
 					rm.cases = append(rm.cases, rtCase{namedVal{name: "go-zero-value", field: "-", kind: "all-default"}, "gogo-to-pulsar", fail})
 				}
-				for _, nv := range gens[famGogo].values(gmd, 2) {
+				for _, nv := range gens[famGogo].values(gmd, depth) {
 					evals++
 					nValues++
 					if fail := gogoToPulsar(mt, gt, gmd, nv); fail != nil {
@@ -760,7 +784,18 @@ func roundtripPart() mc.Part {
 				}
 				continue
 			}
+			// whole-message values (all-populated, all-max) only repeat what a single-field value
+			// already shows; they get a signature of their own only when no single field fails
+			perField := false
 			for _, cse := range rm.cases {
+				if cse.nv.field != "-" {
+					perField = true
+				}
+			}
+			for _, cse := range rm.cases {
+				if perField && cse.nv.field == "-" {
+					continue
+				}
 				c.add(fmt.Sprintf("C20/roundtrip-differs/%s/%s/%s", rm.name, cse.nv.field, cse.nv.kind),
 					fmt.Sprintf("%s, %s, value %q: %s: %s%s", rm.name, cse.dir, cse.nv.name, cse.fail.symptom, cse.fail.detail, suffix),
 					string(rm.name), cse.nv.name, cse.dir)
@@ -780,7 +815,7 @@ func roundtripPart() mc.Part {
 		rep.Nontrivial = nontrivial
 		rep.Exhaustive = exhaustive
 		rep.Bounds = map[string]interface{}{"message_types_round_tripped": nMsgs, "message_types_skipped_missing_in_a_family": nSkipped,
-			"values_total_both_directions": nValues, "nesting_depth": 2, "values_by_field_kind_pulsar_direction": kinds,
+			"values_total_both_directions": nValues, "nesting_depth": depth, "values_by_field_kind_pulsar_direction": kinds,
 			"any_payload_types": len(gens[famPulsar].anyBlobs), "api_only_files_without_gogo_type": w.pulsarOnly}
 		rep.Samples = samples
 		c.finish(&rep, known)
